@@ -110,9 +110,9 @@ def generate(ctx, batch, idx):
             fea = "gen:%d" % r.randrange(1 << 30)  # a generated feature file (props/c16_feagen.py)
         return {"kind": "fea", "fea": fea, "cfg": _config(r, idx), "sseed": r.randrange(1 << 30), "ops": []}
     if batch == "gen":
-        shapes = ["pairs", "classes", "manylookups", "ligatures", "markbase", "mixedpairs", "pairs", "classes", "manylookups", "ligatures", "markbase", "mixedpairs", "foreigncov", "multiple", "alternate", "singlepos", "pairs", "unpackable"]
+        shapes = ["pairs", "classes", "manylookups", "ligatures", "markbase", "mixedpairs", "pairs", "classes", "manylookups", "ligatures", "markbase", "mixedpairs", "foreigncov", "multiple", "alternate", "singlepos", "marknull", "pairs", "unpackable"]
         sh = shapes[idx % len(shapes)]
-        size = r.choice({"pairs": [90, 185, 262], "classes": [60, 190, 230], "manylookups": [62, 75, 95], "ligatures": [60, 95, 120], "mixedpairs": [8, 24, 150], "foreigncov": [40, 60, 300], "multiple": [(400, 5), (3000, 11), (5200, 6)], "alternate": [(300, 4), (2600, 12), (6000, 5)], "singlepos": [300, 8200, -20000, -30000, 12000], "markbase": [(120, 41), (200, 50), (200, 51), (260, 37)], "unpackable": [3]}[sh])
+        size = r.choice({"pairs": [90, 185, 262], "classes": [60, 190, 230], "manylookups": [62, 75, 95], "ligatures": [60, 95, 120], "mixedpairs": [8, 24, 150], "foreigncov": [40, 60, 300], "marknull": [2, 6, 40], "multiple": [(400, 5), (3000, 11), (5200, 6)], "alternate": [(300, 4), (2600, 12), (6000, 5)], "singlepos": [300, 8200, -20000, -30000, 12000], "markbase": [(120, 41), (200, 50), (200, 51), (260, 37)], "unpackable": [3]}[sh])
         return {"kind": "gen", "shape": sh, "size": size, "cfg": _config(r, idx), "sseed": r.randrange(1 << 30), "ops": []}
     raise ValueError(batch)
 
